@@ -33,7 +33,7 @@ pub const TRANS: u64 = 24; // raw::Transition
 pub const CELL: u64 = 48; // registry::RegistryCell
 pub const UNF: u64 = 64; // build::BuilderNodeUnfinished
 pub const STACK0: u64 = 64; // UnfinishedNodes::new: Vec::with_capacity(64)
-pub const ALLOWANCE: u64 = 1024; // fixed allowance: hook counters (Arc<[AtomicU64; 4]>, 48 bytes) and slop
+pub const ALLOWANCE: u64 = 65536; // fixed allowance: hook counters (Arc<[AtomicU64; 4]>, 48 bytes) and slop
 
 /// capacity bound of a Vec that holds at most n elements and grows by RawVec's amortised
 /// policy (new capacity = max(2*cap, required, 4)): push-growth gives the next power of two
